@@ -354,7 +354,16 @@ int SQLITE3::Handle::open(const std::string& path)
 {
   int r = sqlite3_open(path.c_str(), &_db);
   if (r != SQLITE_OK)
+  {
+    /* a handle is handed back also on failure: keep the message, not the handle */
+    if (_db)
+    {
+      _errmsg.assign(sqlite3_errmsg(_db));
+      sqlite3_close(_db);
+      _db = nullptr;
+    }
     return 0;
+  }
   _path.assign(path);
   return 1;
 }
